@@ -2329,6 +2329,65 @@ def n11_rename_locals(fnode, keep, base_hashes):
     return done
 
 
+# ------------------------------------------------------------------ N12 -------
+
+def n12_rotate_loops(fnode, base_hashes):
+    """`B; while T: B`  (the loop body repeats, statement for statement, what
+    stands directly in front of the loop; no break / continue in it, no else
+    branch; the pinned function has no such loop)  ->
+    `while True: B; if not T: break`  -- the same statements in the same
+    order on every path (the "read ahead" form of a loop-and-a-half)."""
+    import hashlib
+    changed = False
+
+    def h(st):
+        return hashlib.sha1(ast.dump(st).encode('utf-8', 'replace')) \
+            .hexdigest()[:12]
+
+    def own_jumps(body):
+        stack = list(body)
+        while stack:
+            n = stack.pop()
+            if isinstance(n, (ast.Break, ast.Continue)):
+                return True
+            if isinstance(n, (ast.While, ast.For, ast.FunctionDef,
+                              ast.Lambda, ast.ClassDef)):
+                continue
+            stack.extend(ast.iter_child_nodes(n))
+        return False
+    for owner in ast.walk(fnode):
+        for fld in ('body', 'orelse', 'finalbody'):
+            lst = getattr(owner, fld, None)
+            if not isinstance(lst, list):
+                continue
+            i = 0
+            while i < len(lst):
+                w = lst[i]
+                k = len(w.body) if isinstance(w, ast.While) else 0
+                if not (isinstance(w, ast.While) and not w.orelse and
+                        0 < k <= i and h(w) not in base_hashes and
+                        not own_jumps(w.body) and
+                        not (isinstance(w.test, ast.Constant))):
+                    i += 1
+                    continue
+                pre = lst[i - k:i]
+                if [ast.dump(x) for x in pre] != [ast.dump(x)
+                                                  for x in w.body]:
+                    i += 1
+                    continue
+                brk = ast.If(test=ast.UnaryOp(op=ast.Not(), operand=w.test),
+                             body=[ast.Break()], orelse=[])
+                new = ast.While(test=ast.Constant(value=True),
+                                body=list(w.body) + [brk], orelse=[])
+                ast.copy_location(new, w)
+                ast.copy_location(brk, w)
+                lst[i - k:i + 1] = [new]
+                ast.fix_missing_locations(new)
+                changed = True
+                i = i - k + 1
+    return changed
+
+
 # ------------------------------------------------------------------ N8 --------
 
 def n8_append_loops(fnode, base_hashes, keep=()):
@@ -2884,6 +2943,9 @@ def normalise(model, stats=None):
                 any_change = True
             if n8_append_loops(f.node, _stmt_hashes(f), keep):
                 count['N8'] = count.get('N8', 0) + 1
+                any_change = True
+            if n12_rotate_loops(f.node, _stmt_hashes(f)):
+                count['N12'] = count.get('N12', 0) + 1
                 any_change = True
             if n4b_ifexp_assign(f.node, _stmt_hashes(f)):
                 count['N4b'] = count.get('N4b', 0) + 1
